@@ -117,7 +117,7 @@ func runReplay(bin string, r *Replay, dir, realDir string, trace bool, raceLog s
 // evicted by an epoch-dependent rule) but are never invented, so retrying is
 // sound; every other class reproduces on the first attempt or not at all.
 func confirmReplay(bin string, r *Replay, class, dir, realDir string, trace bool, raceLog string, n int) (*Replay, error) {
-	if class != "race" {
+	if class != "race" && n < 8 {
 		n = 1
 	}
 	var lastErr error
@@ -383,42 +383,61 @@ func judge(prop string, seed uint64, failures []Replay, info *prepInfo, bins map
 			bins[f.Race], bin = b, b
 		}
 		// confirm in a fresh process first
+		isErratic := false
 		if _, err := confirmReplay(bin, &f, f.Class, dir, realDir, false, "", 4); err != nil {
 			if f.Isolated {
-				fatal2("failing run %s (class %s) was executed in a process of its own and still did not reproduce (%v): harness nondeterminism", f.Subseed, f.Class, err)
-			}
-			// The run failed inside a worker that had executed other runs before it and
-			// passes on its own: the library keeps state outside the detector tree that the
-			// in-process restore between runs does not know about. Such a failure may be
-			// an artefact of that restore, so it is not a verdict; the process-per-run
-			// phase (no shared state by construction) decides.
-			leaked++
-			seenClass[key]--
-			fmt.Printf("NOTE: set aside (did not reproduce alone): subseed %s class %s: %s\n", f.Subseed, f.Class, firstLine(f.Message, 300))
-			if d := os.Getenv("VERIF_KEEP_SETASIDE"); d != "" {
-				if b, err := json.MarshalIndent(f, "", " "); err == nil {
-					os.WriteFile(filepath.Join(d, fmt.Sprintf("setaside-%s-%s.json", prop, f.Subseed)), b, 0o644)
+				// The run had a process to itself and failed; the same plan and decisions pass
+				// now. Either the harness is nondeterministic, or the library is (an answer
+				// that depends on map iteration order, on an address, on the time). Replay it
+				// a number of times: if the failure comes back at all, it is the library's.
+				if _, err2 := confirmReplay(bin, &f, f.Class, dir, realDir, false, "", 24); err2 != nil {
+					fatal2("failing run %s (class %s) was executed in a process of its own and still did not reproduce (%v): harness nondeterminism", f.Subseed, f.Class, err)
 				}
+				isErratic = true
+			} else {
+				// The run failed inside a worker that had executed other runs before it and
+				// passes on its own: the library keeps state outside the detector tree that the
+				// in-process restore between runs does not know about. Such a failure may be
+				// an artefact of that restore, so it is not a verdict; the process-per-run
+				// phase (no shared state by construction) decides.
+				leaked++
+				seenClass[key]--
+				fmt.Printf("NOTE: set aside (did not reproduce alone): subseed %s class %s: %s\n", f.Subseed, f.Class, firstLine(f.Message, 300))
+				if d := os.Getenv("VERIF_KEEP_SETASIDE"); d != "" {
+					if b, err := json.MarshalIndent(f, "", " "); err == nil {
+						os.WriteFile(filepath.Join(d, fmt.Sprintf("setaside-%s-%s.json", prop, f.Subseed)), b, 0o644)
+					}
+				}
+				continue
 			}
-			continue
 		}
-		min, tried := minimise(bin, f, dir, realDir, 90*time.Second, 220)
+		min, tried := f, 0
+		attempts := 4
+		if isErratic {
+			// the same plan gives different answers from one execution to the next: no minimising, many replays
+			attempts = 24
+		} else {
+			min, tried = minimise(bin, f, dir, realDir, 90*time.Second, 220)
+		}
 		// final confirmation, with trace (and race log when applicable); fall
 		// back to the confirmed original when the minimised file does not hold up
 		logPrefix := ""
 		if f.Race {
 			logPrefix = filepath.Join(dir, "racelog-"+f.Subseed)
 		}
-		final, err := confirmReplay(bin, &min, f.Class, dir, realDir, true, logPrefix, 4)
+		final, err := confirmReplay(bin, &min, f.Class, dir, realDir, true, logPrefix, attempts)
 		if err != nil {
 			min, tried = f, 0
-			if final, err = confirmReplay(bin, &min, f.Class, dir, realDir, true, logPrefix, 6); err != nil {
+			if final, err = confirmReplay(bin, &min, f.Class, dir, realDir, true, logPrefix, attempts+2); err != nil {
 				fatal2("confirmed failure (class %s) stopped reproducing: %v", f.Class, err)
 			}
 		}
 		pick(final, f.Class)
 		final.Seed, final.Subseed, final.Race, final.Minimised = f.Seed, f.Subseed, f.Race, true
 		final.Note = fmt.Sprintf("minimised with %d candidate replays, each in a fresh process; original run had %d scheduler steps", tried, len(f.Decisions.Sched))
+		if isErratic {
+			final.Note = "the library's answer for this plan differs from one execution to the next (the failure reproduced in some of up to 24 replays, not in all): not minimised; replay it repeatedly"
+		}
 		if logPrefix != "" {
 			final.Sites = raceSites(logPrefix, info.Dir)
 			if final.Class == "race" && len(final.Sites) > 0 {
